@@ -63,6 +63,7 @@ type c32Sched struct {
 	grant  map[string]chan struct{}
 	free   bool
 	ended  bool
+	updRet int // updatePicker calls that have returned
 	events []map[string]any
 	wg     sync.WaitGroup
 }
@@ -170,13 +171,17 @@ type c32Env struct {
 	nextID int
 	scs    map[string]*acBalancerWrapper
 	trs    map[string]*c32Transport
+	loaded map[string]int // generation each pick goroutine loaded last (observed by the driver at its "load" step)
 }
 
+// c32Picker is a stateful picker: what it returns (kind, code) is controlled by the driver and
+// may change between two publications of the same object (`reswap`).  label is the number of the
+// publication that last set its state (only used in error messages).
 type c32Picker struct {
-	env  *c32Env
-	gen  int
-	kind string
-	code int
+	env   *c32Env
+	label int
+	kind  string
+	code  int
 }
 
 func (p *c32Picker) Pick(info balancer.PickInfo) (balancer.PickResult, error) {
@@ -186,7 +191,10 @@ func (p *c32Picker) Pick(info balancer.PickInfo) (balancer.PickResult, error) {
 	id := e.nextID
 	e.mu.Unlock()
 	r := strings.TrimPrefix(info.FullMethodName, "/verif/")
-	ev := map[string]any{"ev": "picker_call", "r": r, "g": p.gen, "kind": p.kind, "id": id, "sc": "", "code": 0, "msg": ""}
+	e.mu.Lock()
+	gen := e.loaded[r]
+	e.mu.Unlock()
+	ev := map[string]any{"ev": "picker_call", "r": r, "g": gen, "kind": p.kind, "id": id, "sc": "", "code": 0, "msg": ""}
 	switch p.kind {
 	case "ok", "notready":
 		sc := "A"
@@ -208,13 +216,13 @@ func (p *c32Picker) Pick(info balancer.PickInfo) (balancer.PickResult, error) {
 		return balancer.PickResult{}, balancer.ErrNoSubConnAvailable
 	case "status":
 		ev["code"] = p.code
-		ev["msg"] = "S" + strconv.Itoa(p.gen)
+		ev["msg"] = "S" + strconv.Itoa(p.label)
 		e.s.log(ev)
-		return balancer.PickResult{}, status.Error(codes.Code(p.code), "S"+strconv.Itoa(p.gen))
+		return balancer.PickResult{}, status.Error(codes.Code(p.code), "S"+strconv.Itoa(p.label))
 	default: // "err"
-		ev["msg"] = "E" + strconv.Itoa(p.gen)
+		ev["msg"] = "E" + strconv.Itoa(p.label)
 		e.s.log(ev)
-		return balancer.PickResult{}, errors.New("E" + strconv.Itoa(p.gen))
+		return balancer.PickResult{}, errors.New("E" + strconv.Itoa(p.label))
 	}
 }
 
@@ -255,7 +263,7 @@ func c32SafeClose(ch chan struct{}) {
 
 func c32RunBehaviour(b *c32Behaviour) (events []map[string]any, outcome string) {
 	s := c32NewSched()
-	env := &c32Env{s: s, scs: map[string]*acBalancerWrapper{}, trs: map[string]*c32Transport{}}
+	env := &c32Env{s: s, scs: map[string]*acBalancerWrapper{}, trs: map[string]*c32Transport{}, loaded: map[string]int{}}
 	for _, n := range []string{"A", "B"} {
 		tr := &c32Transport{name: "t" + n}
 		env.trs[n] = tr
@@ -315,14 +323,31 @@ func c32RunBehaviour(b *c32Behaviour) (events []map[string]any, outcome string) 
 	}
 	nswaps := 0
 	for _, st := range b.Steps {
-		if st.P == "swap" {
+		if st.P == "swap" || st.P == "reswap" {
 			nswaps++
 		}
 	}
 	var nextKind string
-	curGen := 0
+	nextSame := false // re-publish the picker object that was published last
+	var lastPicker *c32Picker
+	// curGen maps the wrapper's current pickerGeneration object to its number (its position in
+	// the list of generation objects the driver has seen installed).
+	curGen := func() int {
+		pg := pw.pickerGen.Load()
+		if pg == nil {
+			return -1
+		}
+		for i, x := range gens {
+			if x == pg {
+				return i
+			}
+		}
+		gens = append(gens, pg)
+		return len(gens) - 1
+	}
 	s.spawn("u", func() {
-		for g := 1; g <= nswaps; g++ {
+		// +12: the continuation after a drift may publish more often than the schedule
+		for g := 1; g <= nswaps+12; g++ {
 			s.hook("swap")
 			if s.isEnded() {
 				return
@@ -331,15 +356,35 @@ func c32RunBehaviour(b *c32Behaviour) (events []map[string]any, outcome string) 
 			if len(b.Codes) > 0 {
 				code = b.Codes[(g-1)%len(b.Codes)]
 			}
-			s.log(map[string]any{"ev": "upd_start", "g": g})
-			pw.updatePicker(&c32Picker{env: env, gen: g, kind: nextKind, code: code})
+			p := lastPicker
+			if nextSame && p != nil {
+				// the same object, whose state has changed since it was published
+				p.label, p.kind, p.code = g, nextKind, code
+			} else {
+				p = &c32Picker{env: env, label: g, kind: nextKind, code: code}
+			}
+			lastPicker = p
+			s.log(map[string]any{"ev": "upd_start", "g": g, "same": nextSame})
+			pw.updatePicker(p)
+			s.mu.Lock()
+			s.updRet++
+			s.mu.Unlock()
 		}
 	})
 
 	// observe is called at quiescence: it logs the Level-A observations `parked` / `unblocked`
 	// and returns the model-level pc of every pick goroutine.
+	updLogged := 0
 	observe := func() map[string]string {
 		pcs := map[string]string{}
+		defer func() {
+			s.mu.Lock()
+			n := s.updRet
+			s.mu.Unlock()
+			for ; updLogged < n; updLogged++ {
+				s.log(map[string]any{"ev": "upd_end", "g": updLogged + 1})
+			}
+		}()
 		for _, r := range names {
 			at := s.where(r)
 			switch at {
@@ -365,7 +410,6 @@ func c32RunBehaviour(b *c32Behaviour) (events []map[string]any, outcome string) 
 	observe()
 
 	outcome = "ok"
-	updating := 0
 	// exec performs one step (thread step or environment action), records the Level-A
 	// observations around it and returns the model-level pcs at the following quiescence.
 	exec := func(st *c32Step) (map[string]string, error) {
@@ -379,21 +423,20 @@ func c32RunBehaviour(b *c32Behaviour) (events []map[string]any, outcome string) 
 		case "flip":
 			ready[st.Arg] = !ready[st.Arg]
 			c32SetReady(env, st.Arg, ready[st.Arg])
-		case "swap":
-			nextKind = st.Arg
-			if err = s.step("u", "swap"); err == nil {
-				// the updater is now between Swap and close
-				if pg := pw.pickerGen.Load(); pg != nil {
-					gens = append(gens, pg)
-					if p, ok := pg.picker.(*c32Picker); ok {
-						curGen = p.gen
-					}
-				}
-				updating = curGen
-				s.log(map[string]any{"ev": "swapped", "g": curGen})
+		case "swap", "reswap":
+			nextKind, nextSame = st.Arg, st.P == "reswap"
+			if err = s.step("u", "swap"); err == nil && s.where("u") == "close" {
+				// the updater is between Swap and close
+				s.log(map[string]any{"ev": "swapped", "g": curGen()})
 			}
 		case "close":
 			err = s.step("u", "close")
+		case "load":
+			// nothing else runs: the generation the goroutine loads is the current one
+			env.mu.Lock()
+			env.loaded[st.T] = curGen()
+			env.mu.Unlock()
+			err = s.step(st.T, st.P)
 		case "wait":
 			waiting[st.T] = true
 			err = s.step(st.T, st.P)
@@ -404,10 +447,7 @@ func c32RunBehaviour(b *c32Behaviour) (events []map[string]any, outcome string) 
 			return nil, err
 		}
 		pcs := observe()
-		switch st.P {
-		case "close":
-			s.log(map[string]any{"ev": "upd_end", "g": updating})
-		case "cancel":
+		if st.P == "cancel" {
 			s.log(map[string]any{"ev": "cancel_done", "r": st.Arg})
 		}
 		return pcs, nil
@@ -424,12 +464,7 @@ stepLoop:
 		}
 		// Level I: compare the private state with the specification's state.
 		if st.Exp != nil {
-			got := map[string]any{"cur": 0, "upc": "idle"}
-			if pg := pw.pickerGen.Load(); pg != nil {
-				if p, ok := pg.picker.(*c32Picker); ok {
-					got["cur"] = p.gen
-				}
-			}
+			got := map[string]any{"cur": curGen(), "upc": "idle"}
 			if s.where("u") == "close" {
 				got["upc"] = "close"
 			}
